@@ -506,9 +506,12 @@ def contains_version(version, constraints):
     # Split the constraint list in two sub lists:
     #   a first list where the comparator is "=" or "!="
     #   a second list where the comparator is neither "=" nor "!="
+    # A range made only of "!=" constraints contains every version but these,
+    # and the "tested version" is none of these.
+    unequal_only = bool(constraints) and all(c.comparator == "!=" for c in constraints)
     constraints = [c for c in constraints if c.comparator not in ("=", "!=")]
     if not constraints:
-        return False
+        return unequal_only
 
     # If we end up with constraints list contains only one item.
     if len(constraints) == 1:
